@@ -570,8 +570,14 @@ func (ka *ecdheKeyAgreement) processServerKeyExchange(config *Config, clientHell
 
 	var sigType uint8
 	var sigHash crypto.Hash
+	var tls12HashId uint8 // HashAlgorithm as named on the wire, for logging
 	if ka.version >= VersionTLS12 {
 		signatureAlgorithm := SignatureScheme(sig[0])<<8 | SignatureScheme(sig[1])
+		if sa, ok := signatureAlgorithms[signatureAlgorithm]; ok {
+			tls12HashId = sa.Hash // e.g. sha256 for both 0x0403 and 0x0804
+		} else {
+			tls12HashId = uint8(signatureAlgorithm >> 8)
+		}
 		sig = sig[2:]
 		if len(sig) < 2 {
 			return errServerKeyExchange
@@ -610,7 +616,7 @@ func (ka *ecdheKeyAgreement) processServerKeyExchange(config *Config, clientHell
 		auth.raw = sig
 		auth.valid = ka.verifyError == nil
 		auth.sh.Signature = sigType
-		auth.sh.Hash = uint8(sigHash)
+		auth.sh.Hash = tls12HashId
 	default:
 		break
 	}
